@@ -3,11 +3,13 @@ package checks
 import (
 	"bytes"
 	"fmt"
+	"io"
 	"strings"
 
 	"github.com/gregoryv/mq"
 
 	"verif/mc/core"
+	"verif/mc/gen"
 )
 
 // C17 — WellFormed decides exactly the documented rules and String agrees.
@@ -19,8 +21,9 @@ func init() {
 		Level: "exploration",
 		Rule: "full product: PUBLISH over topic {empty,non-empty} x topic alias {0,1,65535} x QoS 0..3 x packet id {0,1,65535} x DUP x RETAIN x all 2^6 presence combinations of the remaining fields; " +
 			"SUBSCRIBE over filter count 0..3 x subscription id {absent,0,1,268435455,268435456,2^31-1,2^32,2^32+5,2^62+1} x per filter (filter {empty,non-empty} x ALL 256 option bytes) for lists of <=2 filters and a 12-value option alphabet for the third; TopicFilter.WellFormed over the same per-filter space; " +
+			"filter contents (43 strings with or resembling a meaning to brokers: shared subscriptions complete and incomplete, $SYS, wildcards well and badly placed, NUL, non-UTF-8) x all 256 option bytes x placement (TopicFilter alone; alone, first or last in a SUBSCRIBE) and topic contents x alias x QoS x packet id; every sequence of <= 3 (thorough 4) operations from {AddFilters, Filters()[i].SetOptions, Filters()[i].SetFilter, SetSubscriptionID, String, WriteTo} on an empty, a one-filter and a decoded two-filter SUBSCRIBE, judged after every step by the rule evaluated on what Filters() and SubscriptionID() return; " +
 			"every packet as built through the API and, where the wire can carry it, as decoded from its own frame. Oracle: the three predicates transcribed from the property statement; WellFormed()!=nil <=> predicate; String() contains 'malformed!' <=> WellFormed()!=nil. distinct_nontrivial = distinct input tuples.",
-		Assumptions: []string{"field contents are fixed representatives; the rules depend only on emptiness, zero-ness and the option/QoS bits"},
+		Assumptions: []string{"in the full products field contents are fixed representatives; the content strata vary them over fixed lists"},
 		Run:         runC17,
 		Replay:      replayC17,
 	})
@@ -215,12 +218,327 @@ func c17Filter(f filtIn) *core.Finding {
 var subIDs17 = []int{-1, 0, 1, 268435455, 268435456, 1<<31 - 1, 1 << 32, 1<<32 + 5, 1<<62 + 1}
 var optAlpha12 = []byte{0, 1, 2, 3, 4, 8, 0x10, 0x20, 0x30, 0x40, 0x80, 0xff}
 
+// ---- contents: the rules speak of emptiness and the QoS bits only; what a
+// non-empty filter or topic contains must not matter ------------------------
+
+var c17Contents = func() []string {
+	return append(append([]string{}, gen.FilterContents...), gen.FilterContentsOdd...)
+}()
+
+// c17Content: a filter with the given content and option byte, alone in a
+// TopicFilter (mode 0), alone in a SUBSCRIBE (1), first (2) or last (3) of
+// two filters.
+func c17Content(ci, opt, mode int, decoded bool) *core.Finding {
+	resetGlobals()
+	content := c17Contents[ci]
+	want := len(content) == 0 || opt&3 == 3
+	if mode == 0 {
+		tf := mq.NewTopicFilter(content, mq.Opt(opt))
+		var wf *mq.Malformed
+		res := guarded(0, func() { wf = tf.WellFormed(); _ = tf.String() })
+		if res.Panic != "" {
+			return &core.Finding{Class: "topicfilter.content/panic", Detail: fmt.Sprintf("filter %q options %#02x: %s", content, opt, res.Panic)}
+		}
+		if (wf != nil) != want {
+			return &core.Finding{Class: fmt.Sprintf("topicfilter.content/wellformed-%v-want-%v", wf != nil, want), Detail: fmt.Sprintf("filter %q options %#02x: TopicFilter.WellFormed()=%v", content, opt, wf)}
+		}
+		return nil
+	}
+	p := mq.NewSubscribe()
+	p.SetPacketID(3)
+	good := mq.NewTopicFilter("o/+", 1)
+	f := mq.NewTopicFilter(content, mq.Opt(opt))
+	switch mode {
+	case 1:
+		p.AddFilters(f)
+	case 2:
+		p.AddFilters(f, good)
+	default:
+		p.AddFilters(good, f)
+	}
+	tag := "subscribe.content.api"
+	if decoded {
+		tag = "subscribe.content.wire"
+		b, _, err, res := writePacket(p, 0)
+		if err != nil || res.Panic != "" {
+			return nil
+		}
+		q, rerr, res := readPacket(bytes.NewReader(b), stepBudget(len(b)))
+		if rerr != nil || res.Panic != "" || res.Budget {
+			return nil // whether the decoder accepts it is not C17's business
+		}
+		pp, ok := q.(*mq.Subscribe)
+		if !ok {
+			return nil
+		}
+		p = pp
+	}
+	var wf *mq.Malformed
+	var str string
+	res := guarded(0, func() { wf = p.WellFormed(); str = p.String() })
+	if res.Panic != "" {
+		return &core.Finding{Class: tag + "/panic", Detail: fmt.Sprintf("filter %q options %#02x mode %d: %s", content, opt, mode, res.Panic)}
+	}
+	if fd := judge(tag, wf, str, want); fd != nil {
+		fd.Detail = fmt.Sprintf("filter %q options %#02x (mode %d): %s", content, opt, mode, fd.Detail)
+		return fd
+	}
+	return nil
+}
+
+var c17Topics = []string{"a", "$SYS/x", "#", "+", "a/#", " ", "\x00", "$share/g/t", "\xff\xfe", "/", "%s%d", "T\u00e9"}
+
+// c17PubContent: PUBLISH with a topic of the given content.
+func c17PubContent(ti int, alias uint16, qos uint8, pid uint16, decoded bool) *core.Finding {
+	resetGlobals()
+	p := mq.NewPublish()
+	p.SetTopicName(c17Topics[ti])
+	if alias != 0 {
+		p.SetTopicAlias(alias)
+	}
+	p.SetQoS(qos)
+	if pid != 0 {
+		p.SetPacketID(pid)
+	}
+	tag := "publish.content.api"
+	if decoded {
+		tag = "publish.content.wire"
+		b, _, err, res := writePacket(p, 0)
+		if err != nil || res.Panic != "" {
+			return nil
+		}
+		q, rerr, res := readPacket(bytes.NewReader(b), stepBudget(len(b)))
+		if rerr != nil || res.Panic != "" || res.Budget {
+			return nil
+		}
+		pp, ok := q.(*mq.Publish)
+		if !ok {
+			return nil
+		}
+		if qos == 0 || qos == 3 {
+			pid = 0
+		}
+		p = pp
+	}
+	want := ((qos == 1 || qos == 2) && pid == 0) || qos == 3
+	var wf *mq.Malformed
+	var str string
+	res := guarded(0, func() { wf = p.WellFormed(); str = p.String() })
+	if res.Panic != "" {
+		return &core.Finding{Class: tag + "/panic", Detail: fmt.Sprintf("topic %q: %s", c17Topics[ti], res.Panic)}
+	}
+	if fd := judge(tag, wf, str, want); fd != nil {
+		fd.Detail = fmt.Sprintf("topic %q alias %d qos %d pid %d: %s", c17Topics[ti], alias, qos, pid, fd.Detail)
+		return fd
+	}
+	return nil
+}
+
+// ---- histories: the rules are about the packet as it is now, also after
+// filters were edited in place through what Filters() returns and after
+// setters were called again -------------------------------------------------
+
+type c17Op struct {
+	Kind int // 0 AddFilters(new), 1 Filters()[i].SetOptions(o), 2 Filters()[i].SetFilter(s), 3 SetSubscriptionID(v), 4 String()+WellFormed() (read only), 5 WriteTo
+	I    int
+	Opt  byte
+	Str  string
+	ID   int
+}
+
+func (o c17Op) String() string {
+	switch o.Kind {
+	case 0:
+		return fmt.Sprintf("AddFilters(%q,%#02x)", o.Str, o.Opt)
+	case 1:
+		return fmt.Sprintf("Filters()[%d].SetOptions(%#02x)", o.I, o.Opt)
+	case 2:
+		return fmt.Sprintf("Filters()[%d].SetFilter(%q)", o.I, o.Str)
+	case 3:
+		return fmt.Sprintf("SetSubscriptionID(%d)", o.ID)
+	case 4:
+		return "String()"
+	}
+	return "WriteTo"
+}
+
+var c17OpAlphabet = func() []c17Op {
+	var ops []c17Op
+	for _, o := range []byte{0, 1, 3, 0x2e} {
+		for _, s := range []string{"a/#", ""} {
+			ops = append(ops, c17Op{Kind: 0, Opt: o, Str: s})
+		}
+	}
+	for i := 0; i < 2; i++ {
+		for _, o := range []byte{0, 2, 3, 0x07} {
+			ops = append(ops, c17Op{Kind: 1, I: i, Opt: o})
+		}
+		for _, s := range []string{"", "b", "$share/g/"} {
+			ops = append(ops, c17Op{Kind: 2, I: i, Str: s})
+		}
+	}
+	for _, id := range []int{1, 268435455, 268435456} {
+		ops = append(ops, c17Op{Kind: 3, ID: id})
+	}
+	return append(ops, c17Op{Kind: 4}, c17Op{Kind: 5})
+}()
+
+// c17History applies ops (indices into the alphabet) to a SUBSCRIBE that
+// starts empty (init 0), with one good filter (1) or decoded from a frame
+// with two good filters (2), judging after every step by the documented
+// rule evaluated on what the accessors return.
+func c17History(init int, path []int) *core.Finding {
+	resetGlobals()
+	p := mq.NewSubscribe()
+	p.SetPacketID(7)
+	switch init {
+	case 1:
+		p.AddFilters(mq.NewTopicFilter("x/y", 1))
+	case 2:
+		p.AddFilters(mq.NewTopicFilter("x/y", 1), mq.NewTopicFilter("z", 2))
+		b, _, err, res := writePacket(p, 0)
+		if err != nil || res.Panic != "" {
+			return nil
+		}
+		q, rerr, res := readPacket(bytes.NewReader(b), stepBudget(len(b)))
+		pp, ok := q.(*mq.Subscribe)
+		if rerr != nil || res.Panic != "" || res.Budget || !ok {
+			return nil
+		}
+		p = pp
+	}
+	names := ""
+	for step, oi := range path {
+		o := c17OpAlphabet[oi]
+		names += o.String() + " "
+		res := guarded(0, func() {
+			switch o.Kind {
+			case 0:
+				p.AddFilters(mq.NewTopicFilter(o.Str, mq.Opt(o.Opt)))
+			case 1:
+				if fs := p.Filters(); o.I < len(fs) {
+					fs[o.I].SetOptions(mq.Opt(o.Opt))
+				}
+			case 2:
+				if fs := p.Filters(); o.I < len(fs) {
+					fs[o.I].SetFilter(o.Str)
+				}
+			case 3:
+				p.SetSubscriptionID(o.ID)
+			case 4:
+				_ = p.String()
+				_ = p.WellFormed()
+			case 5:
+				p.WriteTo(io.Discard)
+			}
+		})
+		if res.Panic != "" {
+			return nil // C19's business
+		}
+		// the rule, evaluated on the accessor values
+		var want bool
+		var wf *mq.Malformed
+		var str string
+		res = guarded(0, func() {
+			fs := p.Filters()
+			want = len(fs) == 0 || p.SubscriptionID() > 268435455
+			for _, f := range fs {
+				if f.Filter() == "" || byte(f.Options())&3 == 3 {
+					want = true
+				}
+			}
+			wf = p.WellFormed()
+			str = p.String()
+		})
+		if res.Panic != "" {
+			return nil
+		}
+		if fd := judge("subscribe.history", wf, str, want); fd != nil {
+			fd.Detail = fmt.Sprintf("SUBSCRIBE (init %d) after [%s] (step %d): %s", init, names, step+1, fd.Detail)
+			return fd
+		}
+	}
+	return nil
+}
+
 func runC17(x *core.Ctx) {
 	report := func(f *core.Finding, c core.Case, rerun func() *core.Finding) {
 		if f != nil {
 			x.Report(f, func() core.Case { return c }, rerun)
 		}
 	}
+	// contents x all 256 option bytes x placement, API-built and decoded
+	for ci := range c17Contents {
+		if !x.Mine() {
+			continue
+		}
+		for opt := 0; opt < 256; opt++ {
+			for mode := 0; mode < 4; mode++ {
+				for _, dec := range []bool{false, true} {
+					if mode == 0 && dec {
+						continue
+					}
+					ci, opt, mode, dec := ci, opt, mode, dec
+					x.Eval("filter-contents")
+					x.Distinct(core.Hash([]byte(fmt.Sprintf("fc%d/%d/%d/%v", ci, opt, mode, dec))))
+					report(c17Content(ci, opt, mode, dec), core.Case{Harness: "c17.content", Params: map[string]any{"ci": ci, "opt": opt, "mode": mode, "decoded": dec}},
+						func() *core.Finding { return c17Content(ci, opt, mode, dec) })
+				}
+			}
+		}
+	}
+	for ti := range c17Topics {
+		if !x.Mine() {
+			continue
+		}
+		for _, alias := range []uint16{0, 1} {
+			for qos := uint8(0); qos < 4; qos++ {
+				for _, pid := range []uint16{0, 1} {
+					for _, dec := range []bool{false, true} {
+						ti, alias, qos, pid, dec := ti, alias, qos, pid, dec
+						x.Eval("topic-contents")
+						x.Distinct(core.Hash([]byte(fmt.Sprintf("tc%d/%d/%d/%d/%v", ti, alias, qos, pid, dec))))
+						report(c17PubContent(ti, alias, qos, pid, dec), core.Case{Harness: "c17.topic", Params: map[string]any{"ti": ti, "alias": int(alias), "qos": int(qos), "pid": int(pid), "decoded": dec}},
+							func() *core.Finding { return c17PubContent(ti, alias, qos, pid, dec) })
+					}
+				}
+			}
+		}
+	}
+	x.Sample("filter-contents", 1, func() any { return c17Contents })
+	// histories: every sequence of <= 3 (thorough 4) operations from three initial packets
+	depth := 3
+	if x.Thorough() {
+		depth = 4
+	}
+	n := len(c17OpAlphabet)
+	for init := 0; init < 3; init++ {
+		var rec func(path []int)
+		rec = func(path []int) {
+			if len(path) > 0 {
+				pp := append([]int{}, path...)
+				init := init
+				x.Eval("histories")
+				x.Distinct(core.HashInts(fmt.Sprint("h", init), pp))
+				if len(pp) == depth || true {
+					report(c17History(init, pp), core.Case{Harness: "c17.history", Choices: pp, Params: map[string]any{"init": init}}, func() *core.Finding { return c17History(init, pp) })
+				}
+			}
+			if len(path) == depth || x.Expired() {
+				return
+			}
+			for i := 0; i < n; i++ {
+				if len(path) == 0 && !x.Mine() {
+					continue
+				}
+				rec(append(path, i))
+			}
+		}
+		rec(nil)
+	}
+	x.Sample("histories", 1, func() any {
+		return []string{c17OpAlphabet[0].String(), c17OpAlphabet[9].String(), c17OpAlphabet[len(c17OpAlphabet)-2].String()}
+	})
 	// PUBLISH product
 	for _, topic := range []bool{false, true} {
 		for _, alias := range []uint16{0, 1, 65535} {
@@ -316,6 +634,12 @@ func replayC17(c core.Case) *core.Finding {
 	dec, _ := c.Params["decoded"].(bool)
 	m, _ := c.Params["in"].(map[string]any)
 	switch c.Harness {
+	case "c17.content":
+		return c17Content(paramInt(c.Params, "ci"), paramInt(c.Params, "opt"), paramInt(c.Params, "mode"), dec)
+	case "c17.topic":
+		return c17PubContent(paramInt(c.Params, "ti"), uint16(paramInt(c.Params, "alias")), uint8(paramInt(c.Params, "qos")), uint16(paramInt(c.Params, "pid")), dec)
+	case "c17.history":
+		return c17History(paramInt(c.Params, "init"), c.Choices)
 	case "c17.pub":
 		in := pubIn{Topic: m["Topic"].(bool), Alias: uint16(m["Alias"].(float64)), QoS: uint8(m["QoS"].(float64)), PID: uint16(m["PID"].(float64)),
 			Dup: m["Dup"].(bool), Ret: m["Ret"].(bool), Others: int(m["Others"].(float64))}
